@@ -181,6 +181,8 @@ pub struct Node {
     pub cur_wid: u32,
     pub fired_cur: bool,
     pub fired_any: bool,
+    /// woke itself inside its most recent poll (reach probe)
+    pub self_woke: bool,
     /// zip: item buffered for the current row
     pub buffered: Option<u32>,
     /// values this node produced, in order
@@ -213,6 +215,7 @@ impl Node {
             cur_wid: 0,
             fired_cur: false,
             fired_any: false,
+            self_woke: false,
             buffered: None,
             produced: Vec::new(),
             handed: Vec::new(),
@@ -293,6 +296,8 @@ pub struct Stats {
     pub p_multi_end: u64,
     pub p_backpressure: u64,
     pub p_err_in_flush: u64,
+    pub p_err_saturated: u64,
+    pub p_err_in_progress: u64,
     pub p_big_len: u64,
     pub p_remove_live: u64,
     pub p_refill: u64,
@@ -311,7 +316,7 @@ impl Stats {
             f_spurious, f_new_waker, f_same_waker, f_stale, f_dup, f_inpoll, f_selfnow, f_lock,
             f_after_done, f_after_drop, f_cancel, f_panic, f_never, f_slot_reuse, f_growth,
             f_delayed, p_repoll_after_selfwake, p_bit_already_set, p_zip_late_row, p_multi_end,
-            p_backpressure, p_err_in_flush, p_big_len, p_remove_live, p_refill, root_polls,
+            p_backpressure, p_err_in_flush, p_err_saturated, p_err_in_progress, p_big_len, p_remove_live, p_refill, root_polls,
             child_polls, wakes, group_ops, vtime, steps
         );
     }
@@ -321,7 +326,7 @@ impl Stats {
             f_spurious, f_new_waker, f_same_waker, f_stale, f_dup, f_inpoll, f_selfnow, f_lock,
             f_after_done, f_after_drop, f_cancel, f_panic, f_never, f_slot_reuse, f_growth,
             f_delayed, p_repoll_after_selfwake, p_bit_already_set, p_zip_late_row, p_multi_end,
-            p_backpressure, p_err_in_flush, p_big_len, p_remove_live, p_refill, root_polls,
+            p_backpressure, p_err_in_flush, p_err_saturated, p_err_in_progress, p_big_len, p_remove_live, p_refill, root_polls,
             child_polls, wakes, group_ops, vtime, steps
         )
     }
